@@ -938,8 +938,9 @@ fn gen_cross(r: &mut Rng, idx: usize, _thorough: bool) -> Value {
 }
 
 /// messages whose digest, read as an integer, is >= the group order: RFC 6979 (bits2octets) reduces it before seeding the nonce generator.
-/// Only P-256 has reachable instances (probability 2^-32 per message; found by search): SHA-256("c13:195160577") = ffffffffd2345e11...
-const DIGEST_GE_N_P256: &[&str] = &["c13:195160577"];
+/// Only P-256 has reachable instances (probability 2^-32 per message; found by search): SHA-256("c13:195160577") = ffffffffd2345e11...,
+/// SHA-256("c13:16679787629") = ffffffff738513c1...
+const DIGEST_GE_N_P256: &[&str] = &["c13:195160577", "c13:16679787629"];
 
 fn gen_digest(r: &mut Rng) -> Value {
     let keys = vec![
